@@ -11,8 +11,11 @@ import (
 
 // ---- sync.Map: a scheduling point in front of the real operation ----
 
-func SMLoad(site string, m *sync.Map, k interface{}) (interface{}, bool) { Yield(site); return m.Load(k) }
-func SMStore(site string, m *sync.Map, k, v interface{})                 { Yield(site); m.Store(k, v) }
+func SMLoad(site string, m *sync.Map, k interface{}) (interface{}, bool) {
+	Yield(site)
+	return m.Load(k)
+}
+func SMStore(site string, m *sync.Map, k, v interface{}) { Yield(site); m.Store(k, v) }
 func SMLoadOrStore(site string, m *sync.Map, k, v interface{}) (interface{}, bool) {
 	Yield(site)
 	return m.LoadOrStore(k, v)
@@ -40,9 +43,9 @@ func SMClear(site string, m *sync.Map) {
 }
 
 // YieldV / Seq put a scheduling point in front of an expression.
-func YieldV(site string) struct{}   { Yield(site); return struct{}{} }
+func YieldV(site string) struct{}  { Yield(site); return struct{}{} }
 func Seq[T any](_ struct{}, v T) T { return v }
-func Gosched()                      { Yield("gosched") }
+func Gosched()                     { Yield("gosched") }
 
 // ---- math/rand ----
 
@@ -68,15 +71,15 @@ func RandIntn(n int) int {
 	}
 	return int(randStream().next() % uint64(n))
 }
-func RandInt() int           { return int(randStream().next() >> 1) }
-func RandInt63() int64       { return int64(randStream().next() >> 1) }
-func RandInt31() int32       { return int32(randStream().next() >> 33) }
+func RandInt() int             { return int(randStream().next() >> 1) }
+func RandInt63() int64         { return int64(randStream().next() >> 1) }
+func RandInt31() int32         { return int32(randStream().next() >> 33) }
 func RandInt31n(n int32) int32 { return int32(randStream().next() % uint64(n)) }
 func RandInt63n(n int64) int64 { return int64(randStream().next() % uint64(n)) }
-func RandUint32() uint32     { return uint32(randStream().next()) }
-func RandUint64() uint64     { return randStream().next() }
-func RandFloat64() float64   { return float64(randStream().next()>>11) / (1 << 53) }
-func RandSeed(int64)         {}
+func RandUint32() uint32       { return uint32(randStream().next()) }
+func RandUint64() uint64       { return randStream().next() }
+func RandFloat64() float64     { return float64(randStream().next()>>11) / (1 << 53) }
+func RandSeed(int64)           {}
 func RandPerm(n int) []int {
 	p := make([]int, n)
 	for i := range p {
